@@ -358,7 +358,21 @@ func genAuth(c *ctx) *leanFile {
 		}
 		l.raw("def " + name + " : List (String × String) := [" + strings.Join(ys, ", ") + "]")
 	}
-	pairList("jwtErrorMap", errMap, okErrMap, "processHelloV2: `if err != nil { if errors.Is(…) … }` after jwt.ParseWithClaims not found")
+	l.fact("jwtErrorMap")
+	if okErrMap {
+		var ys []string
+		for _, x := range errMap {
+			var ns []string
+			for _, n := range strings.Split(x[0], "|") {
+				ns = append(ns, leanStr(n))
+			}
+			ys = append(ys, "(["+strings.Join(ns, ", ")+"], "+leanStr(x[1])+")")
+		}
+		l.raw("def jwtErrorMap : List (List String × String) := [" + strings.Join(ys, ", ") + "]")
+	} else {
+		l.fail("jwtErrorMap: processHelloV2: `if err != nil { if errors.Is(…) … }` after jwt.ParseWithClaims not found")
+		l.raw("def jwtErrorMap : List (List String × String) := [] -- EXTRACTION FAILED")
+	}
 	l.str("jwtErrorDefault", errDefault, okErrMap, "processHelloV2: default error of the jwt error mapping not found")
 	pairList("hubTimeRules", timeRules, okRules && len(timeRules) > 0, "processHelloV2: if/else-if chain after `now := time.Now()` not found")
 
